@@ -95,6 +95,15 @@ def run_history(history, budget_s=5):
             d.clear()
         elif kind == 'raise':
             raise Boom()
+        elif kind == 'first_raises':
+            # whichever listener runs first raises; if the dispatch goes on all the same, the
+            # next one drops the program's last reference to the one that raised and probes
+            # it with another event (symmetric: independent of the listener iteration order)
+            if 'raiser' not in cap:
+                cap['raiser'] = op[1]
+                raise Boom()
+            act(('drop', cap['raiser']))
+            act(('dispatch', 'f', (9,)))
         elif kind == 'script':
             # ('script', handler, event, nth_call, [ops])
             _, h, ev, nth, ops = op
@@ -312,6 +321,13 @@ def families(tier):
                 yield 'C04', H2 + [('add', h) for h in start] + [
                     ('disable',), ('dispatch', 'e', (1,)), ('dispatch', 'f', (2,)), ('dispatch', 'e', (3,))] \
                     + list(combo) + [('enable',), ('dispatch', 'e', (4,))]
+    # C10: a handler whose callback raised is not kept alive by the dispatcher either
+    HF = [('new', 'a', ['e', 'f']), ('new', 'b', ['e', 'f'])]
+    for extra in ((), (('disable',),)):
+        yield 'C10', HF + [('add', 'a'), ('add', 'b'),
+                           ('script', 'a', 'e', 1, [('first_raises', 'a')]),
+                           ('script', 'b', 'e', 1, [('first_raises', 'b')])] + list(extra) + [
+                           ('dispatch', 'e', (1,)), ('enable',), ('dispatch', 'f', (2,))]
     # C10: handlers dropped between operations and in the middle of a dispatch
     # ... after a callback of the same dispatch cleared the whole dispatcher
     for extra in ((), (('disable',),)):
@@ -348,7 +364,11 @@ def decorator_scenarios(skip):
     def mk(name, bases, events=(), mappings=None, methods=('x', 'y', 'z', 'alt')):
         ns = {}
         for mname in methods:
-            ns[mname] = (lambda mname: lambda self, *a: log.append((type(self).__name__, mname, a)))(mname)
+            # the entry names the class whose function runs: the callback of an event is the
+            # method the handler's OWN class resolves the mapped name to (an override wins)
+            ns[mname] = (lambda mname: lambda self, *a: log.append(
+                (type(self).__name__ if name == type(self).__name__
+                 else '%s running the method of %s' % (type(self).__name__, name), mname, a)))(mname)
         cls = type(name, bases, ns)
         if events or mappings:
             cls = desper.event_handler(*events, **(mappings or {}))(cls)
@@ -382,6 +402,25 @@ def decorator_scenarios(skip):
                     want.append((type(inst).__name__, mp[ev], (1,)))
         if got != sorted(want):
             out.append(('C03', 'deliveries %r, expected %r' % (got, sorted(want)), 'decorator-delivery'))
+    # an undecorated subclass that overrides a callback, registered after (and before) an
+    # instance of its base, on one dispatcher and on a fresh one
+    for order in ((0, 1), (1, 0)):
+        del log[:]
+        Base = mk('Base', (), ('x',))
+        Over = mk('Over', (Base,), methods=('x',))
+        insts = [Base(), Over()]
+        d = desper.EventDispatcher()
+        for i in order:
+            d.add_handler(insts[i])
+        d.dispatch('x', 1)
+        d2 = desper.EventDispatcher()
+        o2 = Over()
+        d2.add_handler(o2)
+        d2.dispatch('x', 2)
+        want = sorted([('Base', 'x', (1,)), ('Over', 'x', (1,)), ('Over', 'x', (2,))])
+        if sorted(log) != want:
+            out.append(('C03', 'base and overriding undecorated subclass registered in order %r: deliveries %r, '
+                               'expected %r' % (order, sorted(log), want), 'override-delivery'))
     # three levels: a middle class re-maps an inherited event, a further (decorated or not)
     # subclass keeps the nearer mapping; every combination of re-mapping / adding at each level
     for mid_map, low_events, low_map in (({'x': 'alt'}, ('y',), None), ({'x': 'alt'}, (), {'z': 'z'}),
